@@ -32,6 +32,14 @@ claimed = {
    text="Seeded schedule search: 2..16 client goroutines running real kvql code under a token scheduler that decides who runs at every storage call (pre-drawn, replayable schedule; random switch probabilities and directed schedules), three store topologies, binary built with -race and the token hand-off invisible to the detector, so any unsynchronised conflicting access to library state by two clients is reported deterministically; each statement's result compared with its solo-schedule result.",
    note="amd64 TSO; yield granularity = one storage call; sync.Pool inside fmt/regexp may add hidden edges; knobs fixed before clients start. Race reports without kvql frames are harness defects (exit 2).",
    tech="deterministic simulation: seeded interleaving search with a race-invisible token scheduler, race detector armed, solo-run oracle"),
+ "C03": dict(cat="exploration", ref="§4 C03",
+   text="Statements from a typed generator over the full language (swarm of feature families) executed twice on equal simulated stores, drained row-at-a-time and in batches, at batch sizes from 1 to beyond the result; content comparison in order (multiset inside ORDER BY ties), final store and mutation log for write statements; row-error-with-batch-success, one-sided panics/non-termination and content differences are violations.",
+   note="Batch-only error values tolerated (the property allows that direction); quantile not generated; ORDER BY only over uniformly typed fields; statements the planner rejects are skipped.",
+   tech="deterministic simulation: drain-schedule x chunk-size configuration search, cross-configuration agreement oracle"),
+ "C05": dict(cat="exploration", ref="§4 C05",
+   text="Generated alias-heavy queries over stores in which rows fail the filter, executed in all cells {cache on, off} x {row, batch} at swarm-chosen batch sizes, for the query and for its alias-expanded form; cache invisibility, abbreviation, row shape and per-row point-definition sub-checks; probe counters must be non-zero in thorough runs.",
+   note="Only accepted queries count; error texts not compared; expressions are kept total (no data-dependent evaluation errors) so that scan narrowing cannot legitimately change which side fails.",
+   tech="deterministic simulation: cache/drain/chunk configuration search with relational (self-referential) oracles"),
 }
 BUILT = set(claimed)
 
